@@ -99,6 +99,17 @@ add(
     "DESIGN.md §4 C01",
 )
 
+add(
+    "C13", "exploration",
+    "Hypothesis-generated projects; differential between the four lint formats (independent parsers), JSON self-consistency, and lint-file vs lint on generated path subsets / working directories / --root spellings",
+    "About 1100 generated multi-defect projects per quick run are linted as --json, --plain, default, --lines and --quiet; parsed offender sets per "
+    "category, exit statuses and the plain summary must agree, the JSON counters must equal the sizes of the JSON lists; lint-file is then run on a "
+    "generated subset of paths (covered, excluded, LICENSES texts, directories; relative/absolute; from the root, a sub-directory with --root .. or "
+    "absolute, or outside) and must report exactly lint's per-file problems for the covered files named, exit 1 iff any, exit 2 for a path outside the root.",
+    "Trusts vlib/ref/lintparse.py; symlinks are not passed to lint-file (whether a named symlink means its target is not stated).",
+    "DESIGN.md §4 C13",
+)
+
 NOT_BUILT = "check not built yet in this revision of /verif (planned in DESIGN.md §4; property-based testing applies)"
 
 
